@@ -70,7 +70,23 @@ impl Stats {
     }
 }
 
-pub trait World: Sized {
+/// Every execution of a world happens on a fresh OS thread: fresh thread-locals and — because the
+/// simulator answers `getrandom` — std hash keys that are a function of the world, not of whatever
+/// the worker process did before.
+pub fn run_isolated<W: World>(w: &W, st: &mut Stats) -> Verdict {
+    let r = std::thread::scope(|s| {
+        std::thread::Builder::new().stack_size(16 << 20).spawn_scoped(s, || w.run(st)).expect("spawn world thread").join()
+    });
+    match r {
+        Ok(v) => v,
+        Err(_) => {
+            st.inc("harness_world_thread_panicked");
+            Verdict { violation: None, log_hash: 0 }
+        }
+    }
+}
+
+pub trait World: Sized + Sync {
     /// property id, e.g. "C17"
     const PROP: &'static str;
     /// wall-clock cap for minimising one violation, and violations after which a worker stops
@@ -114,10 +130,10 @@ fn minimise<W: World>(w: W, class: &str, st: &mut Stats) -> (W, u64) {
         for cand in cur.shrink() {
             tries += 1;
             let mut scratch = Stats::default();
-            let a = cand.run(&mut scratch);
+            let a = run_isolated(&cand, &mut scratch);
             if a.violation.as_ref().map(|v| v.class == class).unwrap_or(false) {
                 // accept only if it reproduces twice
-                let b = cand.run(&mut scratch);
+                let b = run_isolated(&cand, &mut scratch);
                 if b.violation.as_ref().map(|v| v.class == class).unwrap_or(false) && a.log_hash == b.log_hash {
                     cur = cand;
                     continue 'outer;
@@ -166,7 +182,7 @@ pub fn worker_main<W: World>(args: &[String]) -> i32 {
         let i = start + k * stride;
         let s = mix(seed, i);
         let w = W::generate(s, i, tier);
-        let v = w.run(&mut st);
+        let v = run_isolated(&w, &mut st);
         done += 1;
         combined = mix(combined, v.log_hash);
         if want_hashes {
@@ -175,7 +191,7 @@ pub fn worker_main<W: World>(args: &[String]) -> i32 {
         if let Some(viol) = v.violation {
             // reproduce once more before believing it
             let mut scratch = Stats::default();
-            let again = w.run(&mut scratch);
+            let again = run_isolated(&w, &mut scratch);
             let reproduced = again.violation.as_ref().map(|x| x.class == viol.class).unwrap_or(false)
                 && again.log_hash == v.log_hash;
             if !reproduced {
@@ -185,7 +201,7 @@ pub fn worker_main<W: World>(args: &[String]) -> i32 {
             }
             let (m, tries) = minimise(w, &viol.class, &mut st);
             let mut scratch = Stats::default();
-            let fin = m.run(&mut scratch);
+            let fin = run_isolated(&m, &mut scratch);
             let detail = fin.violation.as_ref().map(|x| x.detail.clone()).unwrap_or_default();
             violations.push(json!({"run_index": i, "run_seed": s, "class": viol.class, "detail": detail,
                 "original_detail": viol.detail, "log_hash": format!("{:016x}", fin.log_hash),
@@ -397,7 +413,7 @@ pub fn parent_main<W: World>(tier: Tier, plan: Plan, extra: Extra) -> i32 {
             .and_then(|v| W::from_json(&v["world"]).ok())
             .map(|w| {
                 let mut scratch = Stats::default();
-                w.run(&mut scratch).violation.is_some()
+                run_isolated(&w, &mut scratch).violation.is_some()
             });
         match still {
             Some(true) => {
@@ -505,8 +521,8 @@ pub fn replay_main<W: World>(v: &Value) -> i32 {
         }
     };
     let mut st = Stats::default();
-    let a = w.run(&mut st);
-    let b = w.run(&mut st);
+    let a = run_isolated(&w, &mut st);
+    let b = run_isolated(&w, &mut st);
     println!("replay log_hash={:016x} (second execution {:016x}); recorded {}", a.log_hash, b.log_hash, v["log_hash"]);
     match a.violation {
         Some(x) => {
